@@ -156,6 +156,54 @@ CLAIMS["C12"] = {
     "note": "The exception table (DROP_OK) and abort-cause table are frozen and part of the trusted base. " + _TB,
 }
 
+CLAIMS["C01"] = {
+    "text": "Decides read-path and compaction clauses of C01: lookup precedence (memtable, then immutable memtable, then "
+            "files) as branch-edge automata; level-0 candidates sorted with a comparator whose abstractly evaluated sign "
+            "triple is newest-first, search stops at the first decisive callback answer, levels in ascending order; internal "
+            "keys with equal user key ordered by descending tag (comparator CFG evaluated under the three operand "
+            "orderings); an entry is dropped by a compaction only under rule (A) newer entry at/below the oldest snapshot or "
+            "(B) tombstone at/below it at the base level, with the per-key sequence bookkeeping; inputs extended by boundary "
+            "files; memtable output level only without overlap; data block skipped only on a negative filter answer; "
+            "tombstones end the search in memtable and tables. Seek correctness, binary searches and cache-key uniqueness "
+            "are not decided.",
+    "design_ref": "DESIGN.md 5/C01",
+    "technique": "static analysis: branch-edge automata, guard dominance, abstract ordering analysis of comparator CFGs, call-order rules",
+    "note": "Necessary conditions only. " + _TB,
+}
+CLAIMS["C06"] = {
+    "text": "Decides the snapshot clauses of C06: the compaction drop bound is the OLDEST live snapshot (list is append-at-tail, "
+            "oldest = head.next) or last_sequence when none; the two drop rules (shared with C01); the user iterator lets an "
+            "entry influence its view only if sequence <= iterator sequence (exact match: a stricter filter is also flagged), "
+            "seeks with its sequence, which is set once from the snapshot or the capture section; the snapshot list is "
+            "modified only by ldb_snapshot / ldb_release. Observed contents are not decided.",
+    "design_ref": "DESIGN.md 5/C06",
+    "technique": "static analysis: guard dominance (exact and by implication) and provenance rules on the clang CFG",
+    "note": "Necessary conditions only. " + _TB,
+}
+CLAIMS["C11"] = {
+    "text": "Decides the detection clauses of C11: block bytes are interpreted only after a complete successful read and, with "
+            "verify_checksums, only across the edge on which the CRC matched; mismatch is LDB_CORRUPTION; CRC covers contents "
+            "+ type; verification is switched on from paranoid_checks at table open, meta/filter blocks and compaction inputs, "
+            "and log/MANIFEST readers verify records and deliver a physical record only after its CRC matched; iterator "
+            "statuses are read before destruction at the listed sites and aggregated by composite iterators; a failed or "
+            "corrupt table read ends a lookup as an error, not as not-found; the log reader never silently skips buffered "
+            "data in mid-log nor completes a record across a damaged fragment. That a flipped bit changes the CRC is not "
+            "decided.",
+    "design_ref": "DESIGN.md 5/C11",
+    "technique": "static analysis: checksum-before-use edge automata, guard dominance, status-consumption automata on the clang CFG",
+    "note": "Necessary conditions only. " + _TB,
+}
+CLAIMS["C16"] = {
+    "text": "Decides the format clauses of C16: table-format constants (compile-time witnesses: magic, footer/handle/trailer "
+            "sizes, compression codes, filter base, value types, max sequence, snappy tags); block trailer layout and CRC "
+            "coverage of writer and reader against the standard; type byte consistent with what was written; unknown block "
+            "type rejected; footer = two handles, padding to 40, magic, read only from a 48-byte footer with the right magic; "
+            "filters never reject on malformed data. Entry round-trip and Snappy are not decided.",
+    "design_ref": "DESIGN.md 5/C16",
+    "technique": "static analysis: _Static_assert witnesses, writer/reader sibling agreement on expression shape, guard dominance",
+    "note": "Necessary conditions only. " + _TB,
+}
+
 _PENDING = ("check not built yet in this revision; the property is listed here so that it is not claimed "
             "without machinery (see DESIGN.md for the planned rules)")
 
